@@ -23,6 +23,16 @@ TRUE = z3.BoolVal(True)
 FALSE = z3.BoolVal(False)
 
 
+def simp(t):
+    """z3.simplify to a fixpoint (one pass leaves e.g. str.< over literals half-rewritten)."""
+    for _ in range(6):
+        n = z3.simplify(t)
+        if n.eq(t):
+            return n
+        t = n
+    return t
+
+
 class Unsupported(Exception):
     """An SQL / VTL construct the encoder does not know: the template is reported as not encoded."""
 
